@@ -23,6 +23,9 @@ type Replay struct {
 	PerSolver  map[string]string `json:"per_solver,omitempty"`
 	TestSource string            `json:"replay_test_source,omitempty"`
 	PkgDir     string            `json:"replay_pkg_dir,omitempty"`
+	extra      []*Term           // additional hypotheses for the model query (encoder cross-check: block earlier models)
+	scalars    map[*Term]string  // scalar entry terms -> model value (for blocking)
+	scalarKind map[*Term]SortKind
 }
 
 func buildReplay(prog *Program, cs *ContractSet, prop string, r ObResult, timeout int) *Replay {
